@@ -408,8 +408,8 @@ void format_object(const frg::string_view &object, format_options, S &sink) {
 }
 
 template<Sink S, typename Allocator>
-void format_object(const frg::string<Allocator> &object, format_options, S &sink) {
-	sink.append(object.data());
+void format_object(const frg::string<Allocator> &object, format_options fo, S &sink) {
+	format_object(frg::string_view{object.data(), object.size()}, fo, sink);
 }
 
 template<Sink S>
